@@ -61,18 +61,31 @@ impl ToTokens for FromDeriveInputImpl<'_> {
             .as_ref()
             .map(|i| quote!(#i: #input.ident.clone(),));
         let passed_vis = self.vis.as_ref().map(|i| quote!(#i: #input.vis.clone(),));
+        // The generics and the body are read into locals first, through one accumulator, so that
+        // the mistakes of one do not hide the mistakes of the other. The locals are interpolated
+        // from plain quotes: they keep the derive's own hygiene whatever context the field comes from.
+        let errors = quote!(__errors);
+        let generics_local = quote!(__generics);
+        let body_local = quote!(__body);
+        let read_generics = self.generics.as_ref().map(|_| {
+            quote!(let #generics_local = #errors.handle(::darling::FromGenerics::from_generics(&#input.generics));)
+        });
         let passed_generics = self
             .generics
             .as_ref()
-            .map(|i| quote!(#i: ::darling::FromGenerics::from_generics(&#input.generics)?,));
+            .map(|i| quote!(#i: #generics_local.expect("Errors were already checked"),));
         let passed_attrs = self.forward_attrs.as_initializer();
-        let passed_body = self.data.as_ref().map(|i| {
+        let read_body = self.data.as_ref().map(|i| {
             let ForwardedField { ident, with } = i;
             let path = match with {
                 Some(p) => super::expr_style(p).into_token_stream(),
                 None => quote_spanned!(ident.span()=> ::darling::ast::Data::try_from),
             };
-            quote_spanned!(ident.span()=> #ident: #path(&#input.data)?,)
+            quote_spanned!(ident.span()=> let #body_local = #errors.handle(#path(&#input.data));)
+        });
+        let passed_body = self.data.as_ref().map(|i| {
+            let ident = &i.ident;
+            quote_spanned!(ident.span()=> #ident: #body_local.expect("Errors were already checked"),)
         });
 
         let supports = self.supports.map(|i| {
@@ -95,6 +108,17 @@ impl ToTokens for FromDeriveInputImpl<'_> {
         let require_fields = self.base.require_fields();
         let check_errors = self.base.check_errors();
 
+        let read_parts = if read_generics.is_some() || read_body.is_some() {
+            quote! {
+                #declare_errors
+                #read_generics
+                #read_body
+                #check_errors
+            }
+        } else {
+            quote!()
+        };
+
         self.wrap(
             quote! {
                 fn from_derive_input(#input: &::darling::export::syn::DeriveInput) -> ::darling::Result<Self> {
@@ -107,6 +131,8 @@ impl ToTokens for FromDeriveInputImpl<'_> {
                     #require_fields
 
                     #check_errors
+
+                    #read_parts
 
                     #default
 
